@@ -192,6 +192,63 @@ prop(
 )
 
 
+prop(
+    "C05", "exploration",
+    "Corner configurations written as TOML text and sent through the real ParseData: default channel, velocity, key offsets, analog offsets, "
+    "CC numbers and notes each drawn mostly at/inside their valid range (edges favoured) and 1 time in 16 just outside; whatever the parser "
+    "accepts is run (rejections are counted, they are C10's business) with 1-30 steps: panic taps, bursts of up to 16 channel_up/down taps "
+    "(every channel is reached), note taps, octave taps, CC-learning, and axis events at both end stops, the centre and random in-range raws on "
+    "cc / bidirectional cc / pitch_bend / key / action axes (signed, unsigned, centred, hat). Oracle: byte-level monitor on every emitted "
+    "message: length 3, status Note On/Off, CC or Pitch Bend (so channel 1-16), both data bytes < 0x80; no panic. Non-trivial = accepted "
+    "configuration with a non-default corner (channel != 1, offset >= 15, CC >= 100, velocity 1/127) whose history contains panic or an axis event.",
+    [dict(test="TestC05", shards=16, checks_quick=2500, checks_thorough=80000)],
+    level_text="Generated-configuration and -history search with a byte-level well-formedness monitor on everything the real device emits.",
+    level_note=_ENGINE_NOTE,
+    technique="property-based testing (rapid): parser-accepted corner configurations x histories, wire-format monitor",
+)
+
+prop(
+    "C09", "exploration",
+    "Inputs to config.ParseData (and, in TestC09Hidi, to LoadHIDIConfig of cmd/hidi): arbitrary bytes up to 2 KiB; documents up to 64 KiB "
+    "built from the schema vocabulary (all struct tags, key/axis names) with values of every TOML type (ints in all bases, floats incl. inf/nan, "
+    "dates, strings, arrays, inline tables), dotted keys and [x]/[[x]] confusion; the factory files and rapid-generated valid configurations "
+    "with 1-3 mutations (delete/duplicate/swap line, retype value, rename key, truncate at a byte, drop an inline field, [x]<->[[x]], insert, "
+    "corrupt a byte); thorough tier adds native coverage-guided fuzzing (go test -fuzz) seeded with factory files and known hostile inputs. "
+    "Oracle: the call returns a value or an error; a panic (recovered, with its site) or no return within 10 s is a violation. "
+    "Non-trivial = the TOML decoder accepted the document, so HIDI's own conversion code ran (accepted, or rejected by HIDI's validation); "
+    "distinct by input hash (fuzzing: inputs kept for new coverage).",
+    [
+        dict(test="TestC09", shards=16, checks_quick=25000, checks_thorough=600000),
+        dict(test="FuzzC09", fuzz=True, tiers=["thorough"], fuzztime="420s", shards=1, replay_test="TestC09", timeout_thorough=1800),
+    ],
+    level_text="Generated-input search (grammar-based + mutation-based) and, in the thorough tier, coverage-guided fuzzing with the no-panic / "
+               "no-hang oracle inside the target.",
+    level_note="Trusted: Go's recover() sees every panic raised on the calling goroutine (ParseData starts none); the 10 s watchdog. "
+               "The TOML decoder (go-toml v2.0.3) is part of what is exercised.",
+    technique="grammar- and mutation-based property testing (rapid) + native coverage-guided fuzzing, total-function oracle",
+)
+
+prop(
+    "C10", "exploration",
+    "Structured descriptions (1-4 mappings with unique names, 0-3 key sub-handlers with 0-6 keys, 0-3 analog sub-handlers with 0-5 axes of all "
+    "four types and every optional field independently present/absent, exit sequence 0-3, 0-8 action keys over all 14 actions, colours, "
+    "identifier, defaults incl. velocity 0) rendered as TOML in random spellings (key names / aliases / xHEX, notes as numbers or names in "
+    "three letter cases, \"note,offset\" or bare, inline tables or [mapping.analog.map.AXIS] sub-tables, dec/hex/octal/underscored integers, "
+    "comments, blank lines, rotated field and section order). Accept side: ParseData succeeds and a semantic view of the result (exactly the "
+    "fields the property lists, per axis type) equals the view built from the description; all values in MIDI range. Reject side (1/3 of cases): "
+    "one invalidation from the property's list (22 kinds: unknown field at 8 anchors, unknown key/axis/exit/deadzone name, bad note text, "
+    "unknown action / axis action / action_negative / type / collision mode, note / cc / offsets / velocity / default channel out of range, "
+    "missing default mapping) must yield an error. Non-trivial = an axis with an optional field, or any invalidation; distinct by case hash.",
+    [dict(test="TestC10", shards=16, checks_quick=4000, checks_thorough=120000)],
+    level_text="Generated-input search with an independently built expected configuration (round trip description -> text -> parser -> view) "
+               "and single-field invalidations that must be rejected.",
+    level_note="Trusted: the TOML emitter in desc.go (spellings limited to what TOML 1.0 defines), the view functions in c10_test.go. Not asserted: "
+               "absent collision_mode / channel / mapping keys, case variants of field names (go-toml matches them case-insensitively), "
+               "controller numbers 120-127, offsets on key/action axes.",
+    technique="property-based testing (rapid): round-trip against independently built expected value + single-field invalidation",
+)
+
+
 # Properties not (yet) claimed. Kept current by hand; every id of properties.jsonl is either in PROPS or here.
 _PENDING = "check not built yet in this round; planned as property-based test per DESIGN.md"
 NOT_APPLICABLE = [{"property_id": "C%02d" % i, "reason": _PENDING} for i in range(1, 21) if "C%02d" % i not in PROPS]
